@@ -148,6 +148,11 @@ func (b *buildPlan) placeOrphans(i *build.Instance, a []*decoderInfo) error {
 				if pkg := b.encConfig.PkgName; pkg != "" {
 					setPackage(f, pkg, false)
 				}
+				// Decoders may attach an import to an identifier and
+				// rely on Sanitize to declare it, as placeOrphans does.
+				if err := astutil.Sanitize(f); err != nil {
+					return err
+				}
 				files = append(files, f)
 			}
 		} else {
